@@ -48,9 +48,17 @@ def rcb_double(X1, Y1, Z1, b3=21):
 
 def main():
     chk = Check('C03')
+    tasks = build(chk, os.environ.get('VERIF_ONLY', ''))
+    chk.run_tasks(tasks)
+    chk.discharge()
+    chk.finish()
+
+
+def build(chk, only=''):
+    """append this check's tasks (restricted to the groups named in `only`) to a task list; also used by the checks that
+    depend on this one's contracts (common.include_dependency)"""
     prog = load_prog()
     gl = load_globals(prog)
-    only = os.environ.get('VERIF_ONLY', '')
     chk.summaries.update(FA.SUMMARY)
     tasks = []
 
@@ -331,9 +339,7 @@ def main():
     tasks.append(('consts', t_consts))
 
     chk.log('%d tasks' % len(tasks))
-    chk.run_tasks(tasks)
-    chk.discharge()
-    chk.finish()
+    return tasks
 
 
 if __name__ == '__main__':
